@@ -13,6 +13,7 @@ import (
 	"strconv"
 	"strings"
 	"time"
+	"unicode/utf8"
 
 	"github.com/influxdata/kapacitor/tick/ast"
 	"github.com/influxdata/kapacitor/tick/stateful"
@@ -21,6 +22,8 @@ import (
 )
 
 // ---- values ----
+
+var sawInvalidUTF8 bool
 
 func renderVal(v interface{}) string {
 	switch x := v.(type) {
@@ -34,6 +37,9 @@ func renderVal(v interface{}) string {
 	case float64:
 		return "f:" + kit.F64(x)
 	case string:
+		if !utf8.ValidString(x) {
+			sawInvalidUTF8 = true // the Lean side reads strings as UTF-8: such a case cannot be judged and is dropped
+		}
 		return "s:" + kit.Esc(x)
 	case time.Duration:
 		return "d:" + strconv.FormatInt(int64(x), 10)
@@ -462,6 +468,10 @@ func execCase(lines []string) (out []string) {
 }
 
 func emit(out *kit.Out, id string, lines []string) {
+	if sawInvalidUTF8 { // e.g. strSubstring cut a multi-byte character
+		sawInvalidUTF8 = false
+		return
+	}
 	out.Line("case", id)
 	for _, l := range lines {
 		out.Line(l)
